@@ -43,6 +43,13 @@ def vectors(ctx, states):
             cs = rng.choice("ULM")
             V.append({"fn": "icao", "text": case_text(bytes.fromhex(msg), cs, rng), "rel": 0, "case": cs,
                       "df": bytes.fromhex(msg)[0] >> 3, "a": int(ic, 16), "want": enc.text(ic.upper())})
+    # frames whose address-parity / parity field repeats an earlier part of the frame (every offset, every format)
+    for df in range(32):
+        for f in gen.selfsimilar(rng, df if df < 24 else 24):
+            f[0] = (df << 3) | (f[0] & 7)
+            cs = rng.choice("ULM")
+            V.append({"fn": rng.choice(["icao", "icao", "adsb.icao", "allcall.icao"]), "text": case_text(f, cs, rng),
+                      "rel": 0, "case": cs, "df": df, "a": -1})
     # seeded random frames, random case
     for k in range(ctx.pick(6000, 400000)):
         f = gen.rand_frame(rng)
